@@ -16,6 +16,8 @@ import Model.NNLS
 import Proofs.NNLS
 import Proofs.NNLSLoop
 import Proofs.NNLSRecon
+import Proofs.NNLSTerm
+import Proofs.NNLSDescent
 import Mathlib.Algebra.Order.Field.Rat
 import Mathlib.Tactic.NormNum
 import Mathlib.Tactic.IntervalCases
@@ -189,6 +191,72 @@ theorem b_fnnls_main_exit_near_optimal (solve : List (List α) → List α → O
   obtain ⟨hd, hk⟩ := b_fnnls_main_exit_kkt solve hc n A b hsym.1 hsym.2.1 hb tol htol maxIter pInit hp
     d lc lc2 h
   exact a_kkt_tol_near_optimal n A b d x tol htol hsym hpsd hb hd hx hk hxn
+
+/-- (b, progress of the inner loop) one pass of `fix_constraint_cholesky` made under the inner-loop guard
+    `np.any(P) and np.min(s_chol[P]) <= tolerance` removes at least one index from the passive set: the
+    index attaining the minimum step ratio `alpha` lands on `d + alpha (s − d) ≤ tolerance`. This holds
+    for ANY linear solver (no contract needed) and any state whose arrays have length `n`. -/
+theorem b_fix_constraint_shrinks_passive_set (solve : List (List α) → List α → Option (List α))
+    (A : List (List α)) (b : List α) (n : ℕ) (tol : α) (htol : 0 ≤ tol) (st st' : Impl.St α)
+    (hP : st.P.length = n) (hs : st.s.length = n) (hd : st.d.length = n)
+    (hg : Impl.anyPassiveBelow st.s st.P tol = true)
+    (h : Impl.fixConstraint solve A b tol st = some st') :
+    st'.P.count true < st.P.count true :=
+  (fixConstraint_shrinks solve A b n tol htol st st' hP hs hd hg h).1
+
+/-- (b, termination of the inner loop) the inner `while np.any(P) and np.min(s_chol[P]) <= tolerance`
+    loop of the state machine needs no fuel: run with any budget larger than the current size of the
+    passive set (e.g. `|P| + 1`) it never leaves through the `fuel` outcome, and when it returns it has
+    made at most `|P|` passes (`loop_count2` grows by at most the number of indices removed). For every
+    ordered field, every linear solver, every state with arrays of length `n`. (The other outcomes — a
+    failed solve, the code's own cumulative `loop_count2 > 10000` guard — remain possible.) -/
+theorem b_inner_loop_terminates (solve : List (List α) → List α → Option (List α))
+    (A : List (List α)) (b : List α) (n : ℕ) (tol : α) (htol : 0 ≤ tol) (maxIter : ℕ)
+    (st : Impl.St α) (hP : st.P.length = n) (hs : st.s.length = n) (hd : st.d.length = n)
+    (fuel : ℕ) (hfuel : st.P.count true < fuel) :
+    Impl.innerLoop solve A b tol maxIter fuel st ≠ .error .fuel
+    ∧ ∀ st', Impl.innerLoop solve A b tol maxIter fuel st = .ok st' →
+        st'.loopCount2 + st'.P.count true ≤ st.loopCount2 + st.P.count true :=
+  innerLoop_terminates solve A b n tol htol maxIter fuel st hP hs hd hfuel
+
+/-- (b, progress of the outer loop, exact arithmetic) For symmetric positive definite `A`, tolerance 0 and
+    linear solves meeting the contract: from any state satisfying the loop-head invariant `OInv` (`P` and
+    `P_inorder` in sync, `d = s_chol` is `> 0` on `P`, `0` off `P`, solves the passive-set system, `w` is
+    the gradient at `d` — established by the prologue, `initState_inv`, and re-established by every
+    iteration), one iteration of the outer loop — enter `argmax (w * ~P)`, solve, run the inner loop —
+    strictly decreases the objective: `q(s_chol after the inner loop) < q(d before)`. Hence no passive set
+    can recur (`d` is the unique minimiser on its face), which is the classical finite-termination
+    argument; the counting step (at most `2^n` iterations) is not formalised. -/
+theorem b_outer_step_decreases_objective (solve : List (List α) → List α → Option (List α))
+    (hc : Spec.SolveContract solve) (n : ℕ) (A : List (List α)) (b : List α)
+    (hsym : Spec.IsSymm n A) (hpd : Spec.IsPD n A) (hb : b.length = n) (maxIter : ℕ)
+    (st : Impl.St α) (ho : OInv n A b 0 st) (hg : Impl.anyActiveAbove st.w st.P 0 = true)
+    (x : List α)
+    (hx : Impl.solveOn solve A b (st.Pin ++ [Impl.argmax (Impl.maskActive st.w st.P)]) = some x)
+    (fuel : ℕ) (st2 : Impl.St α)
+    (hin : Impl.innerLoop solve A b 0 maxIter fuel
+      { st with P := st.P.set (Impl.argmax (Impl.maskActive st.w st.P)) true,
+                Pin := st.Pin ++ [Impl.argmax (Impl.maskActive st.w st.P)],
+                s := scatter st.s (st.Pin ++ [Impl.argmax (Impl.maskActive st.w st.P)]) x } = .ok st2) :
+    Spec.qform A b st2.s < Spec.qform A b st.d :=
+  outer_step_decreases solve hc n A b hsym hpd hb maxIter st ho hg x hx fuel st2 hin
+
+/-- (b, the same along the whole run) in exact arithmetic the vector `fnnls_cholesky` returns — through
+    either exit, cold or warm start — is never worse than the prologue's starting point, and strictly
+    better as soon as the loop body runs once. -/
+theorem b_outer_loop_objective_decreases (solve : List (List α) → List α → Option (List α))
+    (hc : Spec.SolveContract solve) (n : ℕ) (A : List (List α)) (b : List α)
+    (hsym : Spec.IsSymm n A) (hpd : Spec.IsPD n A) (hb : b.length = n) (maxIter : ℕ)
+    (pInit : Option (List ℕ)) (hp : ∀ idx, pInit = some idx → idx.Nodup ∧ ∀ i, i ∈ idx → i < n)
+    (st0 : Impl.St α) (h0 : Impl.initState solve A b 0 pInit = some st0)
+    (d : List α) (ex : Impl.Exit) (lc lc2 : ℕ)
+    (h : Impl.fnnls solve A b 0 maxIter pInit = .ok d ex lc lc2) :
+    Spec.qform A b d ≤ Spec.qform A b st0.d
+      ∧ (Impl.anyActiveAbove st0.w st0.P 0 = true → Spec.qform A b d < Spec.qform A b st0.d) := by
+  unfold Impl.fnnls at h
+  rw [h0] at h
+  exact outerLoop_objective solve hc n A b hsym hpd hb maxIter _ st0 d ex lc lc2
+    (initState_inv solve hc n A b hsym.1 hsym.2.1 0 pInit hp st0 h0) h
 
 end b
 
@@ -391,6 +459,24 @@ example : (match Impl.fnnls checkedSolve A3 b3 (1 / 1000000000000000) 10000 (som
 example : (match Impl.fnnls checkedSolve A3 b3 (1 / 1000000000000000) 10000 none with
     | .ok d .main _ _ => d == [0, 0, 1 / 3]
     | _ => false) = true := by decide +kernel
+
+/-- exact arithmetic (`tol = 0`, the setting of `b_outer_step_decreases_objective` /
+    `b_outer_loop_objective_decreases`): the prologue's state has an active index with `w > 0`, the run
+    returns the optimum through the main exit, and its objective `−1/6` is below the start's `0` -/
+example : (match Impl.initState checkedSolve A3 b3 0 none with
+    | some st0 => Impl.anyActiveAbove st0.w st0.P 0 && decide (Spec.qform A3 b3 st0.d = 0)
+    | none => false) = true := by decide +kernel
+
+example : (match Impl.fnnls checkedSolve A3 b3 0 10000 none with
+    | .ok d .main _ _ => d == [0, 0, 1 / 3] && decide (Spec.qform A3 b3 d = -1 / 6)
+    | _ => false) = true := by decide +kernel
+
+/-- a state on which the inner-loop guard holds, and the inner loop run with fuel `|P| + 1 = 3` -/
+example : (let st : Impl.St ℚ := { P := [true, false, true], Pin := [0, 2], s := [1 / 5, 0, -1], d := [1, 0, 1],
+                                   w := [0, 0, 0], noUpdate := 0, loopCount := 0, loopCount2 := 0 }
+    Impl.anyPassiveBelow st.s st.P 0 &&
+    (match Impl.innerLoop checkedSolve A3 b3 0 10000 3 st with
+      | .ok st' => decide (st'.P.count true < 2) | .error _ => false)) = true := by decide +kernel
 
 /-- a warm start that is accepted (passive-set solution strictly positive) and continued -/
 example : (match Impl.fnnls checkedSolve A3 [2, 3, 1] (1 / 1000000000000000) 10000 (some [1]) with
